@@ -133,29 +133,31 @@ func eachMutation(base []string, al []string, f func(toks []string)) {
 	}
 }
 
-func (w *wk) mutationLevel(opts []int) {
+func (w *wk) mutationLevel(opts []int, entries []string) {
 	al := alphabet(false)
 	debug.SetMaxStack(defaultMaxStack)
 	for _, b := range mutationBases {
 		base := mutationTokens(b)
 		var total int64
 		eachMutation(base, al, func([]string) { total++ })
-		total *= int64(len(opts))
+		total *= int64(len(opts) * len(entries))
 		if w.skipBlock(total) {
 			continue
 		}
 		eachMutation(base, al, func(toks []string) {
 			src := joinTokenStrings(toks)
 			for _, o := range opts {
-				if !w.takeIdx() {
-					continue
+				for _, en := range entries {
+					if !w.takeIdx() {
+						continue
+					}
+					cs := &Case{F: "text", Src: []byte(src), Opt: o, Entry: en}
+					if !w.begin(cs) {
+						continue
+					}
+					w.execText(cs)
+					w.end()
 				}
-				cs := &Case{F: "text", Src: []byte(src), Opt: o}
-				if !w.begin(cs) {
-					continue
-				}
-				w.execText(cs)
-				w.end()
 			}
 		})
 	}
